@@ -226,6 +226,10 @@ class Deg:
             return Z if all(a == 0 for a in args) else MIXED
         if name in ("np.stack", "np.concatenate"):
             return args[0] if args else Z
+        if name == "np.where" and len(args) == 3:
+            # a value taken from one of two alternatives of equal degree;
+            # numeric literals (a sign factor -1 / 1) have degree 0
+            return same(args[1], args[2])
         if name == "np.divide":
             return add(args[0], neg(args[1]))
         if name in ("np.multiply", "np.matmul", "utils.matrix_product",
